@@ -633,6 +633,43 @@ pub fn run(args: &Args) {
             out::viol(&format!("C09/panic/huge/{}", panic_sig(&p)), J::s(p));
         }
     }
+    // page-count thresholds (auxiliary structures may appear above 2^12 / 2^16 / 2^18 / 2^20 pages):
+    // bitmaps created just below / above a threshold, and small bitmaps with marks that are
+    // ENLARGED across it, then harvested
+    if args.shard().0 == 0 && !cfg!(miri) && !args.flag("nothresholds") {
+        let r0 = guarded(|| {
+            for t in [1usize << 12, 1 << 16, 1 << 18, (1 << 18) + 64, 1 << 20] {
+                for (start, grow) in [(t - 70, 140usize), (100, 2 * t), (t - 1, 1), (t, 1), (t + 70, 0), (3, t - 3)] {
+                    let mut m = Model::new(start, 1);
+                    let mut b = Arc::new(AtomicBitmap::new(start, NonZeroUsize::new(1).unwrap()));
+                    let marks = [0usize, 1, 63, 64, start / 2, start.saturating_sub(2), start.saturating_sub(1)];
+                    for p in marks {
+                        if !apply(&mut b, &mut m, &Op::SetBit(p)) {
+                            return;
+                        }
+                    }
+                    if !apply(&mut b, &mut m, &Op::SetRange(start / 3, 130)) || !apply(&mut b, &mut m, &Op::Enlarge(grow)) {
+                        return;
+                    }
+                    // marks in the grown part too, then the harvest must return exactly the model
+                    let newp = start + grow;
+                    for op in [Op::SetBit(newp.saturating_sub(1)), Op::MarkDirty(start.saturating_sub(3), 9), Op::CloneSwap, Op::GetAndReset, Op::SetBit(5), Op::SetBit(newp / 2), Op::GetAndReset, Op::GetAndReset] {
+                        if !apply(&mut b, &mut m, &op) {
+                            return;
+                        }
+                    }
+                    if !readout(&b, &m, "threshold") {
+                        return;
+                    }
+                    out::key(&format!("threshold|2^{}{}|start{}|grow{}", usize::BITS - 1 - t.leading_zeros(), if t.is_power_of_two() { "" } else { "+" }, if start < t { "<t" } else { ">=t" }, if start + grow > t { ">t" } else { "<=t" }), true);
+                    out::eval(1);
+                }
+            }
+        });
+        if let Err(p) = r0 {
+            out::viol(&format!("C09/panic/thresholds/{}", panic_sig(&p)), J::s(p));
+        }
+    }
     // counters that wrap: the same operation repeated 2^8 / 2^16 times (+-1) between two uses of a
     // page; a page marked before must be markable again and a page cleared must stay clear
     if args.shard().0 == 0 && !cfg!(miri) && !args.flag("nowrap") {
